@@ -60,6 +60,7 @@ REQUIRED = ["io_roundtrips", "io_tiff", "io_npy", "io_nrrd", "io_uint_to_float",
             "raster_whole_brain_coordinates",
             "rasters_after_inplace_edit", "rasters_of_derived_trees", "io_non_contiguous_input",
             "io_small_integer_values", "io_dtype_spelled_as_object_or_name", "rasters_one_voxel_thick",
+            "io_float_stacks_holding_exactly_one",
             "transformer_reused", "rejected_calls_before_raster",
             "tap_get_samplers"]
 FLOOR = {"quick": 450, "thorough": 45000}
@@ -78,6 +79,10 @@ def pattern(shape4, dtype, kind, seed):
         lev = v / 250.0
     elif kind == "random":
         lev = np.random.default_rng(seed).random(shape4)
+    elif kind == "extremes":
+        # only the two ends of the range: exactly 0 and exactly 1 (float) / 0 and the dtype's maximum
+        lev = ((i + j + k + c) % 2).astype(np.float64)
+        lev.reshape(-1)[0] = 1.0
     elif kind in ("mask", "ones", "low"):
         # raw integer values, not levels: a 0/1 mask, an all-ones stack, values 0..3 (what label
         # volumes hold); as floats the same small numbers
@@ -130,6 +135,8 @@ def check_io(ctx, case, tmp):
         ctx.count("io_non_contiguous_input")
     if case["pattern"] in ("mask", "ones", "low") and not case["dtype"].startswith("float"):
         ctx.count("io_small_integer_values")
+    if case["pattern"] == "extremes" and case["dtype"].startswith("float"):
+        ctx.count("io_float_stacks_holding_exactly_one")
     keep = a.copy()
     stored = a4
     if fmt.startswith("tiff"):
@@ -188,6 +195,21 @@ def check_io(ctx, case, tmp):
     if want_dtype.startswith("uint"):
         diff = np.abs(b.astype(np.int64) - want.astype(np.int64))
         tol = 1 if (s.startswith("float") or quantised_on_save) else 0
+        if tol and case["dtype"].startswith("float"):
+            # the step of slack is for *rounding*: where level x maximum is an exact integer (0.0,
+            # 1.0, k / max ...) there is nothing to round and the value must come out exactly
+            qd = str(case["save_dtype"]) if quantised_on_save else want_dtype
+            if qd.startswith("uint") and (quantised_on_save or s.startswith("float")):
+                scaled = a4.astype(np.float64) * UMAX[qd]
+                exact = scaled == np.floor(scaled)
+                if (not quantised_on_save or qd == want_dtype) and (diff[exact] > 0).any():
+                    idx = tuple(int(v) for v in np.argwhere(exact & (diff > 0))[0])
+                    return ctx.violation(
+                        "values-changed",
+                        f"{fmt}: float level {a4[idx]!r} x {UMAX[qd]} is exactly "
+                        f"{int(scaled[idx])}, read back as {b[idx]!r} ({case['dtype']} saved as "
+                        f"{stored.dtype}, read as {want_dtype})", case)
+                ctx.count("io_exact_levels_checked", int(exact.sum()))
     else:
         diff = np.abs(b.astype(np.float64) - want.astype(np.float64))
         tol = 2e-6 + (step if quantised_on_save else 0.0)
@@ -539,7 +561,7 @@ def run(ctx):
                 dtype = "uint16"
             case = {"kind": "io", "shape": list(shape), "dtype": dtype, "fmt": fmt,
                     "pattern": str(rng.choice(["ramp", "ramp", "random", "constant", "mask", "ones",
-                                               "low"])),
+                                               "low", "extremes"])),
                     "seed": int(rng.integers(0, 2**31 - 1)),
                     "save_dtype": None, "compression": None,
                     "read_dtype": [None, None, "uint8", "uint16", "float32", "float64"][
